@@ -345,3 +345,27 @@ def default_tmax(u1, u3, form):
         return False
     a = abi_in_si(sc, "euler", k3)
     return close(a["t_max"], last_si) and close(a["t_sample"][-1], last_si)
+
+
+def kinetics_mixed_units(u1, u2, g):
+    """per-environment dictionaries whose entries are written in DIFFERENT units (D, densities, rate constants): the Python rate of
+    change, in SI, is that of the same model written in bare default-unit numbers (neighbouring cells in the two environments)"""
+    from strengths import kinetics
+    k1, k2 = KEYS[u1 % 11], KEYS[u2 % 11]
+
+    def q(x, key, dim):       # the default-units number x as text in system `key`
+        return "%r %s" % (x * F("A", dim) / F(key, dim), str(Units(SYS[key], UnitsDimensions(*dim))))
+    Dd, kd = (2, -1, 0), (0, -1, 0)
+    def build(explicit):
+        DA = {"e0": q(1.5, k1, Dd), "e1": q(4.0, k2, Dd)} if explicit else {"e0": 1.5, "e1": 4.0}
+        DB = {"e0": q(0.5, k2, Dd), "e1": 2.5} if explicit else {"e0": 0.5, "e1": 2.5}
+        kf = {"e0": q(1.25, k1, kd), "e1": q(0.25, k2, kd)} if explicit else {"e0": 1.25, "e1": 0.25}
+        net = RDNetwork(species=[Species("A", D=DA, density=2.0), Species("B", D=DB, density={"e0": 1.0, "e1": 3.0})], reactions=[Reaction("A -> B", kf=kf, kr=0.5)], environments=["e0", "e1"])
+        if g:
+            sp = RDGraphSpace(nodes=[N(8.0, 0), N(27.0, 1), N(1.0, 0)], edges=[E(0, 1, 4.0, 2.5), E(2, 1, 1.0, 2.0)])
+        else:
+            sp = RDGridSpace(w=3, h=1, d=1, cell_env=[0, 1, 1], cell_vol=8.0)
+        return RDSystem(net, sp)
+    a = [si(v) for v in (kinetics.compute_dstatedt(build(False)).get_at(i) for i in range(6))]
+    b = [si(v) for v in (kinetics.compute_dstatedt(build(True)).get_at(i) for i in range(6))]
+    return all(close(x, y) for x, y in zip(a, b))
